@@ -248,6 +248,9 @@ int main(int argc, char **argv) {
       size_t r = gd_putdata64(D, tok[1], ff, fs, 0, n, T[ti].t, buf);
       printf("put n=%zu e=%d", r, gd_error(D));
       free(buf); tail();
+    } else if (!strcmp(op, "errstr")) {
+      char buf[512]; gd_error_string(D, buf, sizeof buf);
+      printf("errstr %s\n", buf); fflush(stdout);
     } else if (!strcmp(op, "getenc")) {
       unsigned long e = gd_encoding(D, nt >= 2 ? atoi(tok[1]) : 0);
       const char *n = e == GD_UNENCODED ? "none" : e == GD_TEXT_ENCODED ? "text" : e == GD_SIE_ENCODED ? "sie" :
